@@ -263,6 +263,13 @@ def _amount(r):
          sg() * z(r.randrange(0, 100)), sg() * z(r.randrange(0, 2 * 10**6))]
     if not any(a[:4]):
         a[r.randrange(4)] = sg() * r.choice((1, 1, 2, 12, 30))
+    if r.random() < 0.08:
+        # weeks and days of opposite sign that cancel: still "involving weeks or days" - the time units stay on the wall clock
+        w_ = sg() * r.randrange(1, 4)
+        a[0] = a[1] = 0
+        a[2], a[3] = w_, -7 * w_
+        if not any(a[4:]):
+            a[4] = sg() * r.randrange(1, 30)
     return a
 
 
